@@ -73,6 +73,12 @@ CHECKS = {
         text='For identifiers that are never read anywhere in the file the set of W01/W02 reports is fully determined by the statement; the reference computes it from (binding kind, scope kind, name shape) alone and the check compares multisets of (code, name, line, col), so over-reporting, under-reporting, wrong code/position and duplicates are all caught.',
         design_ref='DESIGN.md section 4 (C10)',
         note='Names touched by nonlocal / del / augmented assignment, parameters of a lambda written directly in a class body, and files reading `locals` are left unclassified because the statement is silent on them.'),
+    'C05': dict(
+        technique='differential testing against the compiler (stdlib symtable) over the real-file corpus (exhaustive in the thorough tier) and Hypothesis deep-nesting modules',
+        category='exploration',
+        text='The AST is aligned with the symbol-table tree; for every Name read the compiler says which scope owns the identifier, and every alternative supp returns must belong to that owner. The oracle is the compiler itself over hundreds of thousands of reads of real code plus generated nesting/shadowing/global/nonlocal shapes.',
+        design_ref='DESIGN.md section 4 (C05)',
+        note='Works around two artefacts of the 3.12 symtable module (blocks named "top" are mistaken for the module; inlined comprehension variables appear as function locals). Class-body reads of class-bound names are skipped as the property states. One listed finding (comprehension variable leaks), pinned by an existing test.'),
 }
 
 NOT_YET = 'check not built yet in this session (planned in DESIGN.md section 4); not claimed until its command exists'
